@@ -132,6 +132,17 @@ func (c19) Case(c *core.Ctx) {
 	dir := c19scratch()
 	fn := filepath.Join(dir, "c19.data")
 	defer os.Remove(fn)
+	if r.Intn(4) == 0 {
+		// the file name given to the writers and readers is a symbolic link to the data file
+		link := filepath.Join(dir, "c19.link")
+		os.Remove(link)
+		os.Remove(fn)
+		if err := os.Symlink("c19.data", link); err == nil {
+			defer os.Remove(link)
+			fn = link
+			c.Count("file-name-is-a-symlink")
+		}
+	}
 	isJSON := c.Index%2 == 1
 	n := 1 + r.Intn(6)
 	var mvs mxj.Maps
@@ -140,6 +151,11 @@ func (c19) Case(c *core.Ctx) {
 			m := map[string]interface{}{}
 			for j, k := 0, 1+r.Intn(3); j < k; j++ {
 				m[c19jsonStr(r)] = c19jsonVal(r, 2)
+			}
+			if r.Intn(8) == 0 {
+				// the key NewMapJson uses for a top-level JSON list, as the only key of an ordinary Map
+				m = map[string]interface{}{"object": []interface{}{c19jsonVal(r, 1), map[string]interface{}{"k": c19jsonStr(r)}}}
+				c.Count("json:sole-key-object-with-list")
 			}
 			mvs = append(mvs, m)
 		} else {
